@@ -236,7 +236,12 @@ fn gen_jcase(rng: &mut Rng, t: &Tree, stats: &mut BTreeMap<String, u64>) -> Case
         let mut m: Vec<(String, String)> = vec![];
         for _ in 0..rng.range(1, 2) {
             let k = rng.pick(&keys).replace('\\', "/");
-            let v = gen_jkey(rng, t, cfg.pd.as_deref(), &mut BTreeMap::new()).replace('\\', "/");
+            let mut v = gen_jkey(rng, t, cfg.pd.as_deref(), &mut BTreeMap::new()).replace('\\', "/");
+            if rng.chance(1, 4) {
+                // a Windows-style mapping value: the lookup sees the backslashes as part of a name
+                *stats.entry("partial.mapping.value_with_backslash".to_string()).or_insert(0) += 1;
+                v = if rng.chance(1, 2) { v.replace('/', "\\") } else { v.replacen('/', "\\", 1) };
+            }
             if !m.iter().any(|(k2, _)| *k2 == k) && !v.is_empty() {
                 m.push((k, v));
             }
